@@ -73,6 +73,12 @@ func c16KeyAlgebra(c *report.Collector, l *report.Local) {
 		{`r`, schema.ExpressionValue{Address: lang.Address{lang.RootStep{Name: "r"}}}},
 		{`r[1]`, schema.ExpressionValue{Address: lang.Address{lang.RootStep{Name: "r"}, lang.IndexStep{Key: cty.NumberIntVal(1)}}}},
 		{`r["1"]`, schema.ExpressionValue{Address: lang.Address{lang.RootStep{Name: "r"}, lang.IndexStep{Key: cty.StringVal("1")}}}},
+		// numbers that are no small naturals: as values and as index keys
+		{`1.5`, schema.ExpressionValue{Static: cty.NumberFloatVal(1.5)}}, {`-1`, schema.ExpressionValue{Static: cty.NumberIntVal(-1)}},
+		{`r[1.5]`, schema.ExpressionValue{Address: lang.Address{lang.RootStep{Name: "r"}, lang.IndexStep{Key: cty.NumberFloatVal(1.5)}}}},
+		{`r[-1]`, schema.ExpressionValue{Address: lang.Address{lang.RootStep{Name: "r"}, lang.IndexStep{Key: cty.NumberIntVal(-1)}}}},
+		{`r[1e30]`, schema.ExpressionValue{Address: lang.Address{lang.RootStep{Name: "r"}, lang.IndexStep{Key: cty.MustParseNumberVal("1e30")}}}},
+		{`r[2e30]`, schema.ExpressionValue{Address: lang.Address{lang.RootStep{Name: "r"}, lang.IndexStep{Key: cty.MustParseNumberVal("2e30")}}}},
 	}
 	names := []string{"x", "y", "z"}
 	keyOwner := map[schema.SchemaKey]string{}
